@@ -7,7 +7,7 @@ use crate::scenario::*;
 use crate::schemes::*;
 use crate::seams::*;
 use crate::session::*;
-use ark_ff::{One, UniformRand, Zero};
+use ark_ff::{One, Zero};
 use ark_poly_commit::{LabeledCommitment, LabeledPolynomial, PolynomialCommitment};
 use ark_std::rand::Rng;
 
